@@ -634,7 +634,19 @@ func (g *cg) stmt(d int) Node {
 		g.loops++
 		defer func() { g.loops-- }()
 		if g.r.Bool() {
-			return &ForIn{Decl: true, Left: Id("k"), Obj: g.expr(d + 1), Body: g.sub(d)}
+			f := &ForIn{Decl: true, Left: Id("k"), Obj: g.expr(d + 1), Body: g.sub(d)}
+			switch g.r.Intn(6) {
+			case 0:
+				// 12.6.4, second form: the initialiser is an AssignmentExpressionNoIn and the
+				// for-in's own `in` follows it directly
+				g.f("for-in-init")
+				f.Init = g.assignExpr(d + 1)
+			case 1:
+				// the no-in restriction reaches the third operand of a conditional (11.12)
+				g.f("for-in-init-cond")
+				f.Init = Tern(g.assignExpr(d+2), g.assignExpr(d+2), g.assignExpr(d+2))
+			}
+			return f
 		}
 		return &ForIn{Left: g.lhs(d), Obj: g.expr(d + 1), Body: g.sub(d)}
 	case 10:
